@@ -1,9 +1,14 @@
 #!/usr/bin/env bash
 # tools/seed-worktree.sh <name> – scratch worktree of /repo HEAD under /tmp/sw/<name> for a seeded-change sub-agent,
-# with a warm copy of the base build output (/tmp/sw/base/target, built once by hand).
+# with a warm build directory: hard links to /tmp/sw/base/target (built once by hand). Only the dependencies are reused
+# (the package path differs, so cargo rebuilds iroh-docs itself under a new metadata hash and never rewrites the shared
+# files); a full copy of the 8 GB directory took 4-5 minutes per worktree on this disk.
 set -eu
 name="$1"; wt=/tmp/sw/$name
-git -C /repo worktree add -f --detach "$wt" HEAD >/dev/null 2>&1
-[ -d /tmp/sw/base/target ] && cp -a /tmp/sw/base/target "$wt/target"
+[ -d "$wt" ] || git -C /repo worktree add -f --detach "$wt" HEAD >/dev/null 2>&1
+if [ -d /tmp/sw/base/target ] && [ ! -d "$wt/target" ]; then
+  cp -al /tmp/sw/base/target "$wt/target"
+  rm -rf "$wt/target/debug/incremental"
+fi
 mkdir -p "$wt/SEEDED"
 echo "$wt"
